@@ -1,6 +1,8 @@
 package tsclientgen
 
 import (
+	"fmt"
+
 	"google.golang.org/protobuf/compiler/protogen"
 
 	"github.com/SebastienMelki/sebuf/internal/annotations"
@@ -10,4 +12,12 @@ import (
 func VerifRoute(svc *protogen.Service, m *protogen.Method) (verb, path string, pathParams []string, query []annotations.QueryParam, hasBody bool) {
 	c := (&Generator{}).buildRPCMethodConfig(svc, m)
 	return c.httpMethod, c.fullPath, c.pathParams, c.queryParams, c.hasBody
+}
+
+// VerifMethodLines returns the TypeScript lines emitted for one client method.
+func VerifMethodLines(svc *protogen.Service, m *protogen.Method) []string {
+	var lines []string
+	p := func(format string, args ...interface{}) { lines = append(lines, fmt.Sprintf(format, args...)) }
+	(&Generator{}).generateRPCMethod(p, svc, m)
+	return lines
 }
